@@ -213,7 +213,14 @@ fn free_nicks(m: &Model, p: &Profile) -> Vec<String> {
 }
 
 fn user_of_nick(n: &str) -> String {
-    format!("u{}", n.trim_start_matches('n'))
+    // (three pool nicks stand for clients whose user name contains mask syntax: the text a mask
+    // is matched against is the whole nick!user@host, whatever the user name looks like)
+    match n {
+        "nat" => "ev@x".to_string(),
+        "nex" => "a!b".to_string(),
+        "nst" => "u*".to_string(),
+        _ => format!("u{}", n.trim_start_matches('n')),
+    }
 }
 
 // masks derived from a source so that matching and near-miss masks are both common
